@@ -32,7 +32,7 @@ SEEDS = st.integers(0, 2**31 - 2)
 #                 (density / cognitive strategies), so NaN is in the domain
 # --------------------------------------------------------------------------
 _THETA = [1.0, 1.0, 0.5, 0.8]
-_S = [0.01, 0.1, 0.5, 1.0]
+_S = [0.01, 0.1, 0.5, 0.05, 0.2, 1.0]
 MANAGERS = {
     "EstimatedBudgetZliobaite": dict(abstract=True),
     "FixedUncertaintyBudgetManager": dict(
